@@ -244,7 +244,17 @@ func (s *Cron) Add(j *Job) error {
 		return err
 	}
 
-	return s.DB.Update(f)
+	// Check again in the transaction that writes: another Add
+	// of this job could have come in since the check above, and
+	// overwriting its job here would leave its entry in the time
+	// bucket behind.
+	jobs := "jobs" + s.Partition(j.Account)
+	return s.DB.Update(func(tx *bolt.Tx) error {
+		if js := tx.Bucket([]byte(jobs)).Get([]byte(j.aid)); 0 < len(js) {
+			return Exists
+		}
+		return f(tx)
+	})
 }
 
 func (s *Cron) update(j *Job) (func(*bolt.Tx) error, error) {
